@@ -12,6 +12,7 @@ import Tcell.Gen.TerminfoDB
 import Tcell.Gen.Acs
 import Tcell.Spec.TermCaps
 import Tcell.Lemmas.TPuts
+import Tcell.Spec.Ecma48
 namespace Tcell.Props.C17
 open Tcell
 
@@ -414,6 +415,60 @@ example : (buildAcsMap .stripped Gen.vtACSNames
       { (default : Terminfo) with altChars := [113, 36], enterAcs := [27, 36, 60, 53, 62, 40, 48, 36, 60, 120, 62],
                                    exitAcs := [36, 60, 49, 46, 53, 42, 47, 62, 27, 40, 66] }).get? 9472 =
     some [27, 40, 48, 36, 60, 120, 62, 36, 27, 40, 66] := by decide
+
+/-! #### "always occupying the cell's width": the ACS string on the reference terminal -/
+
+/-- the reference ECMA-48 terminal (`Spec.Ecma48`, 8-bit locale, 40 columns, cursor at the origin) after receiving `s` -/
+def acsTerm (e : Terminfo) (s : Bytes) : Spec.Ecma48.Term :=
+  ((Spec.Ecma48.Term.init { w := 40, h := 2, utf8 := false, ffClears := (e.clear == [12]) }).feed s).finish
+
+/-- the string shows ONE glyph and leaves the terminal as it was: no complaint of the strict tokenizer, the cursor one cell
+to the right of where it was, every mode register (G0/G1 designation, shift state, alternate font, …) back at its value -/
+def oneCell (e : Terminfo) (s : Bytes) : Bool :=
+  let t := acsTerm e s
+  t.malformed.isEmpty && t.cx == 1 && t.cy == 0 && !t.pendingWrap && t.modes == (acsTerm e []).modes
+
+/-- ECMA-48 family (the scope of the reference terminal): cursor addressing starts with CSI -/
+def isEcma (e : Terminfo) : Bool := match e.setCursor with | 27 :: 91 :: _ => true | _ => false
+
+/-- for every listed, named pair whose terminal character is a graphic byte, the map's string for the rune occupies one cell -/
+def acsOneCellOn (v : EncVariant) (names : List (Nat × Rune)) (e : Terminfo) (ps : List (Nat × Nat)) : Bool :=
+  ps.all fun p =>
+    match names.find? (fun q => q.1 == p.1) with
+    | some (_, r) =>
+      if p.2 < 32 || p.2 == 127 then true
+      else match (buildAcsMap v names e).get? r with
+        | some a => oneCell e a
+        | none => false
+    | none => true
+
+set_option maxRecDepth 100000 in
+/-- **acs_glyph_one_cell** (the property's "always occupying the cell's width", ACS branch; tree under test): on a tree with
+fixes/C17-acs-strip-padding.patch, for EVERY ECMA-48-family entry of the database and every listed pair whose terminal
+character is a graphic byte, the string written for the glyph moves the reference terminal's cursor by exactly one cell,
+raises no complaint and restores every mode; on a tree without the repair the same for every entry but vt220 and vt420.
+(Pairs whose terminal character is a C0 byte — the PC-font positions of ansi, cygwin, pcansi — are outside the reference
+terminal's scope: `C09.acs_pc_font_controls`.) -/
+theorem acs_glyph_one_cell :
+    (Gen.db.filter isEcma).all (fun e =>
+      (Gen.acsStripsPadding || (e.name != "vt220" && e.name != "vt420")) →
+        acsOneCellOn treeVariant Gen.vtACSNames e (pairs e.altChars)) = true := by
+  decide +kernel
+
+set_option maxRecDepth 100000 in
+/-- the same about the repaired model variant: every ECMA entry, no exception, whatever the tree -/
+theorem acs_glyph_one_cell_stripped :
+    (Gen.db.filter isEcma).all (fun e => acsOneCellOn .stripped Gen.vtACSNames e (pairs e.altChars)) = true := by
+  decide +kernel
+
+set_option maxRecDepth 100000 in
+/-- pinned counterexample (variant without the padding repair): on vt220 the horizontal line occupies NINE cells — the glyph
+and the eight characters of `$<2>` `$<4>` (the first four of them shown in the special-graphics set) -/
+theorem acs_glyph_unstripped_nine_cells :
+    ∃ e ∈ Gen.db, e.name = "vt220" ∧ acsOneCellOn .repaired Gen.vtACSNames e (pairs e.altChars) = false ∧
+      (acsTerm e [27, 40, 48, 36, 60, 50, 62, 113, 27, 40, 66, 36, 60, 52, 62]).cx = 9 ∧
+      (acsTerm e [27, 40, 48, 113, 27, 40, 66]).cx = 1 := by
+  decide +kernel
 
 /-- non-vacuity: the database has entries with an ACS map, their pair lists are non-trivial (xterm: 30-odd pairs, all
 named), the last pair of xterm (`~~`, bullet) and the ≥ 0x80 character of `ansi` are covered -/
